@@ -610,39 +610,7 @@ func (a *A) ruleAllCallsApplied() int {
 				continue
 			}
 			n++
-			// the natural loop: blocks reachable from the body (not through the header) that get back to
-			// the header; an edge from one of them to a block outside is an early exit
-			reachesHeader := func(from *ssa.BasicBlock) bool {
-				seen := map[*ssa.BasicBlock]bool{}
-				st := []*ssa.BasicBlock{from}
-				for len(st) > 0 {
-					x := st[len(st)-1]
-					st = st[:len(st)-1]
-					if x == l.Header {
-						return true
-					}
-					if seen[x] {
-						continue
-					}
-					seen[x] = true
-					st = append(st, x.Succs...)
-				}
-				return false
-			}
-			inLoop := map[*ssa.BasicBlock]bool{}
-			for b := range l.Blocks {
-				if reachesHeader(b) {
-					inLoop[b] = true
-				}
-			}
-			var bad ssa.Instruction
-			for b := range inLoop {
-				for _, s := range b.Succs {
-					if s != l.Header && !inLoop[s] {
-						bad = b.Instrs[len(b.Instrs)-1]
-					}
-				}
-			}
+			bad := loopEarlyExit(l, nil)
 			pos := l.Header.Instrs[0].Pos()
 			if bad != nil {
 				pos = bad.Pos()
@@ -656,4 +624,47 @@ func (a *A) ruleAllCallsApplied() int {
 		a.anchorFail("no loop applying analyticFieldEngine.applyCall found")
 	}
 	return n
+}
+
+// loopEarlyExit: an instruction at which one iteration of range loop l can leave the loop other than
+// through the exhausted header - a break, a return, a goto out of the body. Exits accepted by
+// excuse (for example `return err` of a failing call) are not counted. nil when there is none.
+func loopEarlyExit(l *RLoop, excuse func(exit *ssa.BasicBlock) bool) ssa.Instruction {
+	// the natural loop: blocks reachable from the body (not through the header) that get back to
+	// the header; an edge from one of them to a block outside is an early exit
+	reachesHeader := func(from *ssa.BasicBlock) bool {
+		seen := map[*ssa.BasicBlock]bool{}
+		st := []*ssa.BasicBlock{from}
+		for len(st) > 0 {
+			x := st[len(st)-1]
+			st = st[:len(st)-1]
+			if x == l.Header {
+				return true
+			}
+			if seen[x] {
+				continue
+			}
+			seen[x] = true
+			st = append(st, x.Succs...)
+		}
+		return false
+	}
+	inLoop := map[*ssa.BasicBlock]bool{}
+	for b := range l.Blocks {
+		if reachesHeader(b) {
+			inLoop[b] = true
+		}
+	}
+	var bad ssa.Instruction
+	for b := range inLoop {
+		for _, s := range b.Succs {
+			if s != l.Header && !inLoop[s] {
+				if excuse != nil && excuse(s) {
+					continue
+				}
+				bad = b.Instrs[len(b.Instrs)-1]
+			}
+		}
+	}
+	return bad
 }
